@@ -48,6 +48,13 @@ def run(P, rep, tier):
     rep.floor("C19.R2", 1)
     rep.floor("C19.R3", 3)
     rep.floor("C19.R4", 5)
+    # refinement against the pinned tree for every function the rules above looked at (rules/pinned.py)
+    import os as _os
+
+    if not _os.environ.get("MDSA_PINNED_GEN"):
+        from .pinned import refine
+
+        refine(P, rep, ctx, "C19")
 
 
 def make_strip_tuning(P):
